@@ -3,7 +3,7 @@ From Coq Require Import NArith List Bool Lia.
 Require Import MQ.Arith64 MQ.Arith64Facts MQ.Types MQ.State MQ.Model MQ.Exec MQ.Reach MQ.Fields MQ.Ctl MQ.Count MQ.SumCount MQ.FreshStep
   MQ.WritersStep MQ.InvWriters MQ.HeadStep MQ.InvHead MQ.RecvDefs MQ.RecvStep MQ.KnownStep MQ.InvRecv MQ.SoleDefs MQ.InvSole
   MQ.PosStep MQ.AttStep MQ.InvPos MQ.GroupStep MQ.GroupStep2 MQ.GroupStep3 MQ.NewAgentStep MQ.InvGroups MQ.RegStep MQ.InvReg
-  MQ.WinStep MQ.WinDefs MQ.WinStep2 MQ.WinTrans MQ.InvWin MQ.SlotDefs MQ.SlotStepA MQ.SlotStepB MQ.SlotStepC.
+  MQ.WinStep MQ.WinDefs MQ.WinStep2 MQ.WinTrans MQ.InvWin MQ.SlotDefs MQ.SlotStepA MQ.SlotStepB MQ.SlotStepC MQ.SlotStepD.
 Import ListNotations.
 Open Scope N_scope.
 
@@ -89,6 +89,18 @@ Proof.
   - rewrite get_put, E2, EB. eexists. split; [reflexivity|]. destruct (memN b (o_ntf o)); auto.
 Qed.
 
+Lemma apply1_get_self s x o :
+  new_ok s x o = true ->
+  exists B, get (ags (apply1 s x o)) x = Some B /\ (B = o_a o \/ B = set_a_notified true (o_a o)).
+Proof.
+  intros NO. unfold apply1. cbn [ags]. rewrite get_notify_all.
+  unfold new_ok in NO. destruct (o_new o) as [[a' A']|].
+  - apply andb_prop in NO as [NO _]. apply negb_true_iff in NO. apply N.eqb_neq in NO.
+    rewrite get_put. assert (E : N.eqb x a' = false) by (apply N.eqb_neq; intros E0; apply NO; symmetry; exact E0).
+    rewrite E, get_put, N.eqb_refl. eexists. split; [reflexivity|]. destruct (memN x (o_ntf o)); auto.
+  - rewrite get_put, N.eqb_refl. eexists. split; [reflexivity|]. destruct (memN x (o_ntf o)); auto.
+Qed.
+
 Lemma slota_notified B Sh b : SlotA (set_a_notified b B) Sh <-> SlotA B Sh.
 Proof. destruct B; unfold SlotA, wipa, ea, pa, fa, wita, valof; cbn; tauto. Qed.
 
@@ -103,6 +115,9 @@ Proof. destruct pc; intros X; try discriminate X; reflexivity. Qed.
 
 Lemma wip_sphase pc : wip pc = true -> sphase pc = true.
 Proof. destruct pc; intros X; try discriminate X; reflexivity. Qed.
+
+Definition witphase (pc : pcl) : bool :=
+  match pc with G2 | G3 | P3pre | M3pre | P3 | M3 => true | _ => false end.
 
 Lemma wita_nonphase A S : witphase (a_pc A) = false -> wita c S A.
 Proof. unfold wita. destruct (a_pc A); intros X; try discriminate X; exact I. Qed.
@@ -127,5 +142,575 @@ Proof.
   - rewrite T, rm_tag_initial in E. unfold MASK_TAG, B62 in *. lia.
   - rewrite rm_tag_small in E by (unfold MASK_IND, B62 in *; lia).
     split; [|exact E]. unfold INITIAL_QUEUE_FLAG, B62 in *. lia.
+Qed.
+
+(* ================= one micro-step ================= *)
+Section Step.
+Variables (fut : bool) (s : state) (x : BinNums.N) (X : agent) (o : out).
+Hypothesis RN : mreachN c fut s.
+Hypothesis SM' : SmallW (apply1 s x o).
+Hypothesis EX : get (ags s) x = Some X.
+Hypothesis M : micro c x X (sh s) = Some o.
+Hypothesis NO : new_ok s x o = true.
+Hypothesis NF : ~ f11_bad (sh s) X.
+Hypothesis EN : is_local (a_pc X) = true \/ enabled x X (sh s) = true.
+Hypothesis IH : SlotInv s.
+
+Lemma st_R : mreach c fut s.
+Proof. exact (mreachN_mreach c fut s RN). Qed.
+
+Lemma st_SM : SmallW s.
+Proof. exact (small_back c Npos Nsmall s x X o EX M SM'). Qed.
+
+Lemma st_RN' : mreachN c fut (apply1 s x o).
+Proof. eapply mrn_micro; eauto. Qed.
+
+Lemma st_win : WinG c (sh s) /\ forall a A, get (ags s) a = Some A -> WinA c A (sh s).
+Proof. exact (win_mreachN c Npos Nsmall fut s RN st_SM). Qed.
+
+Lemma st_win' : WinG c (o_s o) /\ forall a A, get (ags (apply1 s x o)) a = Some A -> WinA c A (o_s o).
+Proof. exact (win_mreachN c Npos Nsmall fut _ st_RN' SM'). Qed.
+
+Lemma st_sf : StepFacts (sh s) (o_s o).
+Proof. exact (proj1 (win_step_global c Npos Nsmall fut s x X o RN SM' EX M NO NF EN (win_mreachN c Npos Nsmall fut s RN))). Qed.
+
+Lemma st_ih : SlotG (sh s) /\ (forall a A, get (ags s) a = Some A -> SlotA A (sh s)) /\ CellsOK s /\ Distinct s.
+Proof. exact (IH st_SM). Qed.
+
+Lemma st_ctl : forall a A, get (ags s) a = Some A -> ctl_ok A = true.
+Proof. exact (ctl_mreach c fut s st_R). Qed.
+
+Lemma st_hl : head (sh s) = lenN (g_log (sh s)) /\ head (sh s) < B62.
+Proof. exact (head_small c Npos Nsmall fut s st_R st_SM). Qed.
+
+Lemma st_hl' : head (o_s o) = lenN (g_log (o_s o)) /\ head (o_s o) < B62.
+Proof. exact (head_small c Npos Nsmall fut _ (mreachN_mreach c fut _ st_RN') SM'). Qed.
+
+Lemma st_cs : forall g, gpos (o_s o) g = gpos (sh s) g \/
+   (a_sid X = g /\ (a_pc X = R12 \/ a_pc X = V4) /\ gpos (o_s o) g = next_count (gpos (sh s) g)) \/
+   (a_pc X = A2 /\ g = nsid (sh s) /\ gpos (o_s o) g = gpos (sh s) (a_sid X)).
+Proof. intros g. destruct st_SM as [SMa _]. apply (cursor_steps c fut s x X o g st_R SMa EX M). Qed.
+
+(* the claim log only grows, and only by a claim *)
+Lemma st_logm : forall p, p < head (sh s) -> logat (o_s o) p = logat (sh s) p.
+Proof.
+  intros p L. destruct st_hl as [HL _]. rewrite HL in L.
+  destruct (micro_head _ _ _ _ _ M) as [[_ E] | [_ [_ E]]].
+  - apply logat_eq. exact E.
+  - eapply logat_app; eauto.
+Qed.
+
+Lemma st_noclaim : a_pc X <> P5 -> a_pc X <> M5 -> head (o_s o) = head (sh s) /\ g_log (o_s o) = g_log (sh s).
+Proof.
+  intros N1 N2. destruct (micro_head _ _ _ _ _ M) as [E | [[PC | [PC _]] _]]; [exact E| |]; contradiction.
+Qed.
+
+Lemma st_tags : a_pc X <> P7 -> forall i, gtag (o_s o) i = gtag (sh s) i.
+Proof. intros N1 i. destruct (micro_tags i _ _ _ _ _ M) as [E | (PC & _)]; [exact E|contradiction]. Qed.
+
+Lemma st_cells : a_pc X <> P6 -> cells (o_s o) = cells (sh s).
+Proof. intros N1. destruct (micro_cells _ _ _ _ _ M) as [E | (PC & _)]; [exact E|contradiction]. Qed.
+
+Lemma st_regx : fn_of (a_pc X) = FTR -> In (a_sid X) (streams (sh s)).
+Proof.
+  intros F. destruct st_SM as [SMa _]. destruct (reg_mreach c fut s st_R SMa) as (_ & RG1 & _).
+  apply (RG1 x X (a_sid X) EX). apply ftr_wh; [exact (st_ctl x X EX)|exact F].
+Qed.
+
+(* ---- global part ---- *)
+Lemma st_global : SlotG (o_s o).
+Proof.
+  destruct st_ih as (SG & SA & _). destruct st_win as (G & IA). destruct st_sf as [F1 F2 F3 F4 F5 F6 F7].
+  destruct st_hl as [HL HB]. destruct (IA x X EX) as (_ & _ & (RA1 & RA2) & _).
+  constructor.
+  - intros g. pose proof (sg_pos _ SG g) as L0.
+    destruct (st_cs g) as [E | [(ES & PC & E) | (PC & EG & E)]]; rewrite E.
+    + lia.
+    + assert (MX : matched (a_pc X) = true) by (destruct PC as [-> | ->]; reflexivity).
+      specialize (RA2 MX). subst g.
+      assert (EP : r_p (a_r X) = gpos (sh s) (a_sid X)).
+      { destruct st_SM as [SMa _].
+        destruct (micro_pos (a_sid X) _ _ _ _ _ M) as [PS | [(_ & _ & EP & EC) | (PA & _)]].
+        - unfold P_same in PS. rewrite PS in E. rewrite (next_count_plus c Npos Nsmall) in E by lia. lia.
+        - rewrite E in EP.
+          destruct (r_am (a_r X)) eqn:EAM.
+          + apply (pos_mreach c fut s st_R SMa x X EX). unfold ap_phase.
+            destruct PC as [-> | ->]; cbn; [now rewrite EAM|reflexivity].
+          + destruct PC as [P12 | PV4]; [symmetry; apply EC; auto|].
+            apply (pos_mreach c fut s st_R SMa x X EX). unfold ap_phase. rewrite PV4. reflexivity.
+        - destruct PC; congruence. }
+      rewrite (next_count_plus c Npos Nsmall) by lia. lia.
+    + pose proof (sg_pos _ SG (a_sid X)). lia.
+  - intros i T.
+    destruct (micro_tags i _ _ _ _ _ M) as [E | (PC & EI & E)].
+    + rewrite E in T |- *. apply (sg_own _ SG i T).
+    + rewrite E. symmetry. exact EI.
+Qed.
+
+(* two writers in progress never share a slot *)
+Lemma wip_slots A B Sh :
+  wipa A Sh -> wipa B Sh -> wip (a_pc A) = true -> wip (a_pc B) = true ->
+  sl c (r_h (a_r A)) = sl c (r_h (a_r B)) -> r_h (a_r A) = r_h (a_r B).
+Proof.
+  intros WA WB PA PB E. destruct (WA PA) as (_ & _ & A1 & A2 & _). destruct (WB PB) as (_ & _ & B1 & B2 & _).
+  unfold sl in E. apply (slot_window (tailc Sh) _ _ N Npos A1 A2 B1 B2 E).
+Qed.
+
+(* what the tail-cache store writes is not ahead of any writer in progress *)
+Lemma st_tail_store B0 : wipa B0 (sh s) -> wip (a_pc B0) = true ->
+  tailc (o_s o) <= r_h (a_r B0).
+Proof.
+  intros WB PB. destruct (WB PB) as (_ & _ & B1 & B2 & B3 & _).
+  destruct st_win as (G & IA). destruct (IA x X EX) as (SAX & UAX & _).
+  destruct st_ih as (_ & SA & _). destruct (SA x X EX) as (_ & _ & _ & _ & TX).
+  destruct (micro_tailc _ _ _ _ _ M) as [E | [(PC & E) | (PC & ET & E)]]; rewrite E; [exact B1| |].
+  - destruct (sa_at c X (sh s) P3 PC SAX) as (S0 & S1 & _ & _ & NF0 & ENT).
+    unfold wita in TX. rewrite PC in TX. specialize (TX NF0). unfold Hb in S1. rewrite ENT.
+    destruct TX as [(g & L) | L]; [specialize (B3 g); lia|lia].
+  - destruct (sa_at c X (sh s) M3 PC SAX) as (S0 & S1 & _ & _ & NF0 & ENT).
+    unfold wita in TX. rewrite PC in TX. specialize (TX NF0). unfold Hb in S1. rewrite ENT.
+    destruct TX as [(g & L) | L]; [specialize (B3 g); lia|lia].
+Qed.
+
+(* ---- an agent that does not step ---- *)
+Lemma st_other b B0 : b <> x -> get (ags s) b = Some B0 -> SlotA B0 (o_s o).
+Proof.
+  intros NE EB.
+  destruct st_ih as (SG & SA & CO & DI). destruct st_win as (G & IA). destruct st_sf as [F1 F2 F3 F4 F5 F6 F7].
+  destruct st_hl as [HL HB].
+  destruct (SA b B0 EB) as (WB & EB_ & PB & FB & TB).
+  destruct (SA x X EX) as (WX & EX_ & PX & FX & TX).
+  destruct (IA b B0 EB) as (_ & _ & (RB1 & RB2) & _).
+  destruct (IA x X EX) as (SAX & _ & (RX1 & RX2) & _).
+  split; [|split; [|split; [|split]]].
+  - (* writer in progress *)
+    intros PW. destruct (WB PW) as (B0' & B1 & B2 & B3 & B4 & B5 & B6).
+    split; [lia|]. split; [rewrite st_logm by exact B0'; exact B1|].
+    split; [apply st_tail_store; assumption|]. split; [lia|].
+    split; [|split].
+    + intros g. pose proof (B4 g) as B4g.
+      destruct (st_cs g) as [E | [(ES & PC & E) | (PC & EG & E)]]; rewrite E; [exact B4g| |apply B4].
+      assert (MX : matched (a_pc X) = true) by (destruct PC as [-> | ->]; reflexivity).
+      destruct (EX_ MX) as (T1 & T2). subst g.
+      assert (EP : r_p (a_r X) = gpos (sh s) (a_sid X)).
+      { destruct st_SM as [SMa _].
+        destruct (micro_pos (a_sid X) _ _ _ _ _ M) as [PS | [(_ & _ & EP & EC) | (PA & _)]].
+        - unfold P_same in PS. rewrite PS in E. pose proof (sg_pos _ SG (a_sid X)).
+          rewrite (next_count_plus c Npos Nsmall) in E by lia. lia.
+        - rewrite E in EP.
+          destruct (r_am (a_r X)) eqn:EAM.
+          + apply (pos_mreach c fut s st_R SMa x X EX). unfold ap_phase.
+            destruct PC as [-> | ->]; cbn; [now rewrite EAM|reflexivity].
+          + destruct PC as [P12 | PV4]; [symmetry; apply EC; auto|].
+            apply (pos_mreach c fut s st_R SMa x X EX). unfold ap_phase. rewrite PV4. reflexivity.
+        - destruct PC; congruence. }
+      rewrite (next_count_plus c Npos Nsmall) by lia.
+      assert (gpos (sh s) (a_sid X) <> r_h (a_r B0)); [|lia].
+      intros EQ. rewrite EP, EQ in T1, T2. destruct B5 as [B5 | B5]; [contradiction|lia].
+    + destruct (micro_tags (sl c (r_h (a_r B0))) _ _ _ _ _ M) as [E | (PC & EI & E)]; [rewrite E; exact B5|].
+      exfalso. assert (PWX : wip (a_pc X) = true) by (rewrite PC; reflexivity).
+      apply (DI x b X B0 (fun E0 => NE (eq_sym E0)) EX EB PWX PW).
+      apply (wip_slots X B0 (sh s) WX WB PWX PW). symmetry. exact EI.
+    + intros P7B. specialize (B6 P7B).
+      destruct (micro_cells _ _ _ _ _ M) as [E | (PC & E)]; rewrite E; [exact B6|].
+      rewrite get_put. destruct (N.eqb (sl c (r_h (a_r B0))) (sl c (r_h (a_r X)))) eqn:ES; [|exact B6].
+      exfalso. apply N.eqb_eq in ES. assert (PWX : wip (a_pc X) = true) by (rewrite PC; reflexivity).
+      apply (DI x b X B0 (fun E0 => NE (eq_sym E0)) EX EB PWX PW).
+      apply (wip_slots X B0 (sh s) WX WB PWX PW). symmetry. exact ES.
+  - (* a matched tag stays at or above the attempt position *)
+    intros MB. destruct (EB_ MB) as (T1 & T2).
+    destruct (micro_tags (sl c (r_p (a_r B0))) _ _ _ _ _ M) as [E | (PC & EI & E)]; rewrite E; [split; assumption|].
+    assert (PWX : wip (a_pc X) = true) by (rewrite PC; reflexivity).
+    destruct (WX PWX) as (X0 & _ & _ & _ & _ & X5 & _). rewrite <- EI in X5.
+    split; [unfold INITIAL_QUEUE_FLAG, B62 in *; lia|]. destruct X5 as [X5 | X5]; [contradiction|lia].
+  - intros AB. specialize (PB AB). specialize (F3 (a_sid B0)). lia.
+  - intros RB. destruct (FB RB) as (BC & FV). split; [exact BC|].
+    intros EQ. pose proof (PB (rd_att _ RB)) as L1. specialize (F3 (a_sid B0)).
+    assert (EQ0 : gpos (sh s) (a_sid B0) = r_p (a_r B0)) by lia.
+    rewrite <- (FV EQ0). apply st_logm. apply RB2. apply rd_matched. exact RB.
+  - apply (wita_mono B0 (sh s) (o_s o) F3 TB).
+Qed.
+
+(* ---- the agent that steps ---- *)
+Lemma st_self_wip : wipa (o_a o) (o_s o).
+Proof.
+  intros PW. cbv zeta.
+  destruct st_ih as (SG & SA & CO & DI). destruct st_win as (G & IA).
+  destruct st_hl as [HL HB]. destruct st_SM as [SMa SMl].
+  destruct (SA x X EX) as (WX & _). destruct (IA x X EX) as (SAX & _).
+  pose proof (micro_spred _ _ _ _ _ M (st_ctl x X EX) (wip_sphase _ PW)) as SPR.
+  destruct (a_pc (o_a o)) eqn:EP'; try discriminate PW.
+  - (* just claimed *)
+    assert (CL : (a_pc X = P5 \/ a_pc X = M5)) by (destruct (a_pc X); try discriminate SPR; auto).
+    assert (FACTS : head (sh s) = r_h (a_r X) /\ head (o_s o) = next_count (r_h (a_r X)) /\
+                    r_h (a_r (o_a o)) = r_h (a_r X) /\ tailc (o_s o) = tailc (sh s) /\ pos (o_s o) = pos (sh s) /\
+                    tags (o_s o) = tags (sh s) /\ PASS c (sh s) (a_r X)).
+    { destruct CL as [PC | PC].
+      - destruct (t_P5 c _ _ _ _ M PC G SAX) as (E1 & E2 & _ & E3 & E4 & _ & _ & _ & E5).
+        destruct (head_mreach c fut s st_R SMa) as [HLX _].
+        assert (PX : pp_pc (a_pc X) (a_stack X) = true) by (rewrite PC; reflexivity).
+        pose proof (HLX x X EX PX) as EH. destruct (sa_at c X (sh s) P5 PC SAX) as (_ & PS).
+        repeat split; auto.
+      - destruct (sa_at c X (sh s) M5 PC SAX) as (_ & PS).
+        destruct (t_M5 c Npos Nsmall _ _ _ _ M PC G SAX) as [(PC2 & _) | (_ & E0 & E1 & E2 & E3 & E4 & _ & _ & _ & E5)].
+        + rewrite EP' in PC2. discriminate PC2.
+        + repeat split; auto. }
+    destruct FACTS as (EH & EH' & ER & ET & EPOS & ETG & PS).
+    assert (ELOG : g_log (o_s o) = g_log (sh s) ++ [r_v (a_r X)]).
+    { destruct (micro_head _ _ _ _ _ M) as [[E _] | [_ [_ E]]]; [|exact E].
+      rewrite E, EH' in *. rewrite (next_count_plus c Npos Nsmall) in EH by lia. lia. }
+    rewrite ER, (t_claim_rv _ _ _ _ _ M CL).
+    split; [rewrite EH', (next_count_plus c Npos Nsmall) by lia; lia|].
+    split; [rewrite <- EH, HL; apply (logat_last _ _ _ ELOG)|].
+    split; [rewrite ET; pose proof (w_tail_le_head c _ G); lia|].
+    split; [rewrite ET; unfold PASS in PS; exact PS|].
+    split; [intros g; unfold gpos; rewrite EPOS; pose proof (sg_pos _ SG g) as L; unfold gpos in L; lia|].
+    split; [|intros X0; discriminate X0].
+    unfold gtag. rewrite ETG. destruct (w_tag_claimed c _ G (sl c (r_h (a_r X)))) as [T | T]; [left; exact T|right; unfold gtag in T; lia].
+  - (* cell written *)
+    assert (PC : a_pc X = P6) by (destruct (a_pc X); try discriminate SPR; reflexivity).
+    destruct (t_P6r _ _ _ _ _ M PC) as (_ & ER & EV & EC & EL & _).
+    destruct (t_P6 c _ _ _ _ M PC SAX) as (E1 & E2 & E3 & _ & _ & _ & E7 & _).
+    assert (PWX : wip (a_pc X) = true) by (rewrite PC; reflexivity).
+    destruct (WX PWX) as (X0 & X1 & X2 & X3 & X4 & X5 & _).
+    rewrite ER, EV, E1, E2. unfold gpos, gtag. rewrite E3, E7, EC.
+    split; [exact X0|]. split; [rewrite (logat_eq _ _ _ EL); exact X1|].
+    split; [exact X2|]. split; [exact X3|]. split; [exact X4|]. split; [exact X5|].
+    intros _. rewrite get_put, N.eqb_refl. reflexivity.
+Qed.
+
+Lemma st_self_ea : ea (o_a o) (o_s o).
+Proof.
+  intros MT. destruct st_ih as (SG & SA & _). destruct st_win as (G & IA).
+  destruct (SA x X EX) as (_ & EX_ & _). destruct (IA x X EX) as (_ & _ & (RX1 & RX2) & _).
+  destruct (micro_matched _ _ _ _ _ M (st_ctl x X EX) MT) as (ES & [(MX & E) | (PC & E & TG)]); rewrite E.
+  - assert (N7 : a_pc X <> P7) by (intros E7; rewrite E7 in MX; discriminate MX).
+    rewrite (st_tags N7). apply EX_. exact MX.
+  - assert (N7 : a_pc X <> P7) by (intros E7; destruct PC as [PC | PC]; rewrite E7 in PC; discriminate PC).
+    rewrite (st_tags N7).
+    assert (AX : att_pc (a_pc X) = true) by (destruct PC as [-> | ->]; reflexivity).
+    destruct (tag_is_pos (sh s) (r_p (a_r X)) _ G eq_refl TG (RX1 AX)) as (T1 & T2).
+    split; [exact T1|]. rewrite T2. lia.
+Qed.
+
+Lemma st_self_pa : pa (o_a o) (o_s o).
+Proof.
+  intros AT. destruct st_ih as (SG & SA & _). destruct st_sf as [_ _ F3 _ _ _ _].
+  destruct (SA x X EX) as (_ & _ & PX & _).
+  destruct (micro_attpc _ _ _ _ _ M (st_ctl x X EX) AT) as (ES & [AX | PR2]); rewrite ES.
+  - specialize (F3 (a_sid X)). destruct (micro_rp _ _ _ _ _ M) as [E | E]; rewrite E; [specialize (PX AX); lia|lia].
+  - rewrite (micro_r2 _ _ _ _ _ M PR2). apply F3.
+Qed.
+
+Lemma st_self_wit : wita c (o_s o) (o_a o).
+Proof.
+  destruct (witphase (a_pc (o_a o))) eqn:WP; [|apply wita_nonphase; exact WP].
+  destruct st_ih as (SG & SA & _). destruct st_win as (G & IA). destruct st_sf as [_ _ F3 _ _ _ _].
+  destruct st_hl as [HL HB].
+  destruct (SA x X EX) as (_ & _ & _ & _ & TX). destruct (IA x X EX) as (SAX & _).
+  apply (wita_mono _ (sh s) (o_s o) F3).
+  apply (micro_wit _ _ _ _ _ M (st_ctl x X EX)); [|intros g; pose proof (sg_pos _ SG g); lia|exact TX].
+  assert (SPH : sphase (a_pc (o_a o)) = true) by (destruct (a_pc (o_a o)); try discriminate WP; reflexivity).
+  pose proof (micro_spred _ _ _ _ _ M (st_ctl x X EX) SPH) as SPR.
+  assert (A0X : A0 (sh s) (a_r X)).
+  { unfold sa in SAX. destruct (a_pc (o_a o)); try discriminate WP;
+      destruct (a_pc X); try discriminate SPR; unfold A0 in *; intuition. }
+  unfold A0 in A0X. lia.
+Qed.
+
+Lemma st_self_fa : fa (o_a o) (o_s o).
+Proof.
+  intros RD. destruct st_ih as (SG & SA & CO & DI). destruct st_win as (G & IA).
+  destruct st_sf as [_ _ F3 _ _ _ _]. destruct st_hl as [HL HB].
+  destruct (SA x X EX) as (_ & EX_ & PX & FX & _). destruct (IA x X EX) as (_ & _ & (RX1 & RX2) & _).
+  destruct (micro_read _ _ _ _ _ M (st_ctl x X EX) RD) as (ES & EPp & [(RDX & K) | (ENT & BCK & N11 & VAL)]).
+  - destruct (FX RDX) as (BC & FV). destruct (K BC) as (EV & BC'). split; [exact BC'|].
+    rewrite ES, EPp, EV. intros EQ.
+    pose proof (PX (rd_att _ RDX)) as L1. specialize (F3 (a_sid X)).
+    assert (EQ0 : gpos (sh s) (a_sid X) = r_p (a_r X)) by lia.
+    rewrite <- (FV EQ0). apply st_logm. apply RX2. apply rd_matched. exact RDX.
+  - split; [intros [K | K]; [apply BCK; exact K|contradiction]|].
+    rewrite ES, EPp. intros EQ.
+    assert (AX : att_pc (a_pc X) = true) by (destruct ENT as [-> | [-> | [-> _]]]; reflexivity).
+    assert (NC : a_pc X <> R12 /\ a_pc X <> V4 /\ a_pc X <> A2 /\ a_pc X <> P5 /\ a_pc X <> M5).
+    { destruct ENT as [-> | [-> | [-> _]]]; repeat split; discriminate. }
+    destruct NC as (N1 & N2 & N3 & N4 & N5).
+    assert (EQ0 : gpos (sh s) (a_sid X) = r_p (a_r X)).
+    { destruct (st_cs (a_sid X)) as [E | [(_ & [PC | PC] & _) | (PC & _)]]; [rewrite <- E; exact EQ| | |]; contradiction. }
+    destruct (st_noclaim N4 N5) as (_ & ELOG). rewrite (logat_eq _ _ _ ELOG).
+    set (p := r_p (a_r X)) in *.
+    pose proof (st_regx (att_ftr _ AX)) as REG.
+    (* the tag of the slot is the attempt position *)
+    assert (TP : gtag (sh s) (sl c p) <> INITIAL_QUEUE_FLAG /\ p <= gtag (sh s) (sl c p)).
+    { destruct (micro_matched _ _ _ _ _ M (st_ctl x X EX) (rd_matched _ RD)) as (_ & [(MX & _) | (_ & _ & TG)]).
+      - apply EX_. exact MX.
+      - destruct (tag_is_pos (sh s) p _ G eq_refl TG (RX1 AX)) as (T1 & T2). split; [exact T1|]. rewrite T2. lia. }
+    destruct TP as (T1 & T2).
+    pose proof (w_tail_le_cursor c _ G _ REG) as W2'. pose proof (w_head_le_tail_n c _ G) as W3'.
+    assert (TH : gtag (sh s) (sl c p) < head (sh s)) by (destruct (w_tag_claimed c _ G (sl c p)) as [T | T]; [contradiction|exact T]).
+    assert (TE : gtag (sh s) (sl c p) = p).
+    { pose proof (sg_own _ SG (sl c p) T1) as OWN. unfold sl in OWN.
+      apply (slot_window p _ _ N Npos); try lia. exact OWN. }
+    assert (NOP7 : forall a A, get (ags s) a = Some A -> a_pc A = P7 -> sl c (r_h (a_r A)) <> sl c p).
+    { intros a A EA P7A ESL. destruct (SA a A EA) as (WA & _).
+      assert (PWA : wip (a_pc A) = true) by (rewrite P7A; reflexivity).
+      destruct (WA PWA) as (_ & _ & A2' & A3 & _ & A5 & _).
+      rewrite ESL, TE in A5. destruct A5 as [A5 | A5]; [rewrite <- TE in A5; contradiction|].
+      assert (r_h (a_r A) = p); [|lia].
+      unfold sl in ESL. apply (slot_window p _ _ N Npos); try lia. }
+    destruct (CO (sl c p) T1 NOP7) as (C1 & C2). rewrite TE in C1.
+    destruct (get (cells (sh s)) (sl c p)) as [v|] eqn:EV; [|contradiction].
+    rewrite (VAL v eq_refl). exact C1.
+Qed.
+
+Lemma st_self : SlotA (o_a o) (o_s o).
+Proof.
+  split; [exact st_self_wip|]. split; [exact st_self_ea|]. split; [exact st_self_pa|].
+  split; [exact st_self_fa|exact st_self_wit].
+Qed.
+
+Lemma slota_plain B Sh :
+  sphase (a_pc B) = false -> att_pc (a_pc B) = false -> SlotA B Sh.
+Proof.
+  intros S1 S2. split; [|split; [|split; [|split]]].
+  - intros X0. rewrite (wip_sphase _ X0) in S1. discriminate S1.
+  - intros X0. rewrite (matched_att _ X0) in S2. discriminate S2.
+  - intros X0. congruence.
+  - intros X0. rewrite (rd_att _ X0) in S2. discriminate S2.
+  - apply wita_nonphase. destruct (a_pc B); try reflexivity; discriminate S1.
+Qed.
+
+Lemma slota_m2 B Sh : a_pc B = M2 -> SlotA B Sh.
+Proof.
+  intros PC. split; [|split; [|split; [|split]]].
+  - intros X0. rewrite PC in X0. discriminate X0.
+  - intros X0. rewrite PC in X0. discriminate X0.
+  - intros X0. rewrite PC in X0. discriminate X0.
+  - intros X0. rewrite PC in X0. discriminate X0.
+  - apply wita_nonphase. rewrite PC. reflexivity.
+Qed.
+
+(* where a writer in progress comes from *)
+Lemma st_wip_src : wip (a_pc (o_a o)) = true ->
+  (wip (a_pc X) = true /\ r_h (a_r (o_a o)) = r_h (a_r X)) \/ r_h (a_r (o_a o)) = head (sh s).
+Proof.
+  intros PW. destruct st_win as (G & IA). destruct st_SM as [SMa SMl]. destruct (IA x X EX) as (SAX & _).
+  pose proof (micro_spred _ _ _ _ _ M (st_ctl x X EX) (wip_sphase _ PW)) as SPR.
+  destruct (a_pc (o_a o)) eqn:EP'; try discriminate PW.
+  - right. assert (CL : (a_pc X = P5 \/ a_pc X = M5)) by (destruct (a_pc X); try discriminate SPR; auto).
+    destruct CL as [PC | PC].
+    + destruct (t_P5 c _ _ _ _ M PC G SAX) as (_ & E2 & _).
+      destruct (head_mreach c fut s st_R SMa) as [HLX _].
+      assert (PX : pp_pc (a_pc X) (a_stack X) = true) by (rewrite PC; reflexivity).
+      rewrite E2. apply (HLX x X EX PX).
+    + destruct (t_M5 c Npos Nsmall _ _ _ _ M PC G SAX) as [(PC2 & _) | (_ & E0 & _ & E2 & _)].
+      * rewrite EP' in PC2. discriminate PC2.
+      * rewrite E2. symmetry. exact E0.
+  - left. assert (PC : a_pc X = P6) by (destruct (a_pc X); try discriminate SPR; reflexivity).
+    destruct (t_P6r _ _ _ _ _ M PC) as (_ & ER & _). rewrite PC. split; [reflexivity|exact ER].
+Qed.
+
+Lemma st_distinct : Distinct (apply1 s x o).
+Proof.
+  intros a b A B NE EA EB PA PB.
+  destruct st_ih as (SG & SA & CO & DI).
+  destruct (apply1_get _ _ _ _ _ EA) as (A0' & HA & SRCA).
+  destruct (apply1_get _ _ _ _ _ EB) as (B0' & HB & SRCB).
+  assert (FA : a_pc A = a_pc A0' /\ r_h (a_r A) = r_h (a_r A0')) by (destruct HA as [-> | ->]; destruct A0'; split; reflexivity).
+  assert (FB : a_pc B = a_pc B0' /\ r_h (a_r B) = r_h (a_r B0')) by (destruct HB as [-> | ->]; destruct B0'; split; reflexivity).
+  destruct FA as (FA1 & FA2). destruct FB as (FB1 & FB2). rewrite FA1 in PA. rewrite FB1 in PB. rewrite FA2, FB2.
+  clear HA HB FA1 FA2 FB1 FB2 EA EB A B.
+  assert (NEWX : forall a' A', o_new o = Some (a', A') -> wip (a_pc A') = true -> False).
+  { intros a' A' Hn PW. destruct (micro_new_idle _ _ _ _ _ _ _ M Hn) as (EI & _). rewrite EI in PW. discriminate PW. }
+  assert (SELF : forall b0 B0, b0 <> x -> get (ags s) b0 = Some B0 -> wip (a_pc B0) = true ->
+                   wip (a_pc (o_a o)) = true -> r_h (a_r (o_a o)) <> r_h (a_r B0)).
+  { intros b0 B0 NE0 EB0 PB0 PX0. destruct (SA b0 B0 EB0) as (WB & _). destruct (WB PB0) as (L & _).
+    destruct (st_wip_src PX0) as [(PWX & E) | E]; rewrite E; [|lia].
+    apply (DI x b0 X B0 (fun E0 => NE0 (eq_sym E0)) EX EB0 PWX PB0). }
+  destruct SRCA as [(a' & Hn & ->) | [(-> & ->) | (NA & EA0)]].
+  - exfalso. eapply NEWX; eauto.
+  - destruct SRCB as [(b' & Hn & ->) | [(-> & ->) | (NB & EB0)]].
+    + exfalso. eapply NEWX; eauto.
+    + contradiction.
+    + apply (SELF b B0' NB EB0 PB PA).
+  - destruct SRCB as [(b' & Hn & ->) | [(-> & ->) | (NB & EB0)]].
+    + exfalso. eapply NEWX; eauto.
+    + intros E. symmetry in E. revert E. apply (SELF a A0' NA EA0 PA PB).
+    + apply (DI a b A0' B0' NE EA0 EB0 PA PB).
+Qed.
+
+Lemma st_cellsok : CellsOK (apply1 s x o).
+Proof.
+  intros i T NOP7'. change (sh (apply1 s x o)) with (o_s o) in *.
+  destruct st_ih as (SG & SA & CO & DI). destruct st_win as (G & IA).
+  destruct (SA x X EX) as (WX & _).
+  assert (OTH : forall b B0, b <> x -> get (ags s) b = Some B0 -> a_pc B0 = P7 -> sl c (r_h (a_r B0)) <> i).
+  { intros b B0 NE EB P7B. destruct (apply1_get_conv s x o b B0 EB NE NO) as (B & EB' & [-> | ->]).
+    - apply (NOP7' b B0 EB' P7B).
+    - assert (F : a_pc (set_a_notified true B0) = P7 /\ r_h (a_r (set_a_notified true B0)) = r_h (a_r B0))
+        by (destruct B0; split; [exact P7B|reflexivity]).
+      destruct F as (F1 & F2). rewrite <- F2. apply (NOP7' b _ EB' F1). }
+  assert (TL : forall t, t < head (sh s) -> logat (o_s o) t = logat (sh s) t) by exact st_logm.
+  destruct (micro_cells _ _ _ _ _ M) as [EC | (PC6 & EC)].
+  - destruct (micro_tags i _ _ _ _ _ M) as [ET | (PC7 & EI & ET)].
+    + rewrite ET in T |- *. rewrite EC.
+      assert (NOP7 : forall a A, get (ags s) a = Some A -> a_pc A = P7 -> sl c (r_h (a_r A)) <> i).
+      { intros a A EA P7A. destruct (N.eq_dec a x) as [-> | NE]; [|apply (OTH a A NE EA P7A)].
+        rewrite EX in EA. injection EA as <-. intros ESL.
+        assert (PWX : wip (a_pc X) = true) by (rewrite P7A; reflexivity).
+        destruct (WX PWX) as (_ & _ & _ & _ & _ & X5 & _).
+        destruct (t_P7r _ _ _ _ _ M P7A) as (ETG & _).
+        assert (E2 : gtag (o_s o) i = r_h (a_r X)) by (unfold gtag; rewrite ETG, getd_put, <- ESL, N.eqb_refl; reflexivity).
+        rewrite ESL, <- ET, E2 in X5. destruct X5 as [X5 | X5]; [|lia].
+        rewrite ET in E2. rewrite E2 in T. contradiction. }
+      destruct (CO i T NOP7) as (C1 & C2). split; [|exact C2]. rewrite <- C1. apply TL.
+      destruct (w_tag_claimed c _ G i) as [T0 | T0]; [contradiction|exact T0].
+    + (* the tag of slot i was just published *)
+      assert (PWX : wip (a_pc X) = true) by (rewrite PC7; reflexivity).
+      destruct (WX PWX) as (X0 & X1 & _ & _ & _ & _ & X6). specialize (X6 PC7).
+      rewrite ET, EC, EI. rewrite X6. split; [|discriminate]. rewrite <- X1. apply TL. exact X0.
+  - (* the cell of slot [sl h] was just written; its writer now sits at P7 *)
+    destruct (t_P6r _ _ _ _ _ M PC6) as (PC' & ER & _).
+    assert (N7 : a_pc X <> P7) by (rewrite PC6; discriminate).
+    rewrite (st_tags N7) in T |- *.
+    destruct (N.eq_dec i (sl c (r_h (a_r X)))) as [EI | NI].
+    + exfalso. destruct (apply1_get_self s x o NO) as (B & EB' & [-> | ->]).
+      * apply (NOP7' x _ EB' PC'). rewrite ER. symmetry. exact EI.
+      * assert (F : a_pc (set_a_notified true (o_a o)) = P7 /\ r_h (a_r (set_a_notified true (o_a o))) = r_h (a_r (o_a o)))
+          by (destruct (o_a o); split; [exact PC'|reflexivity]).
+        destruct F as (F1 & F2). apply (NOP7' x _ EB' F1). rewrite F2, ER. symmetry. exact EI.
+    + rewrite EC, get_put. assert (E : N.eqb i (sl c (r_h (a_r X))) = false) by (apply N.eqb_neq; exact NI). rewrite E.
+      assert (NOP7 : forall a A, get (ags s) a = Some A -> a_pc A = P7 -> sl c (r_h (a_r A)) <> i).
+      { intros a A EA P7A. destruct (N.eq_dec a x) as [-> | NE]; [|apply (OTH a A NE EA P7A)].
+        rewrite EX in EA. injection EA as <-. congruence. }
+      destruct (CO i T NOP7) as (C1 & C2). split; [|exact C2]. rewrite <- C1. apply TL.
+      destruct (w_tag_claimed c _ G i) as [T0 | T0]; [contradiction|exact T0].
+Qed.
+End Step.
+
+(* ================= the invariant ================= *)
+Lemma slot_spur A Sh o0 : micro_spur c A Sh = Some o0 ->
+  sphase (a_pc (o_a o0)) = true \/ att_pc (a_pc (o_a o0)) = true ->
+  (a_pc A = M5 /\ a_pc (o_a o0) = M2) \/ (a_pc A = R12 /\ a_pc (o_a o0) = R4).
+Proof. intros H _. destruct (spur_shape _ _ _ _ H) as (_ & _ & _ & _ & _ & _ & K & _). exact K. Qed.
+
+Theorem slot_mreachN fut s : mreachN c fut s -> SlotInv s.
+Proof.
+  intros RN. induction RN as [|s0 a A cl pc RN IH EA Hpc Hal He FT0|s0 x X o RN IH EX EN M NO NF|s0 a A o RN IH EA M|s0 RN IH].
+  - (* initial state *)
+    intros _. split; [|split; [|split]].
+    + constructor.
+      * intros g. unfold gpos. cbn. unfold getd, get. cbn. destruct (N.eqb g 0); lia.
+      * intros i T. exfalso. apply T. reflexivity.
+    + intros a A EA. cbn in EA. unfold get in EA. cbn in EA.
+      destruct (N.eqb a 0); [injection EA as <-; apply slota_plain; destruct fut; reflexivity|].
+      destruct (N.eqb a 1); [injection EA as <-; apply slota_plain; destruct fut; reflexivity|discriminate].
+    + intros i T. exfalso. apply T. reflexivity.
+    + intros a b A B NE EA EB PA. exfalso. cbn in EA. unfold get in EA. cbn in EA.
+      destruct (N.eqb a 0); [injection EA as <-; destruct fut; discriminate PA|].
+      destruct (N.eqb a 1); [injection EA as <-; destruct fut; discriminate PA|discriminate].
+  - (* begin_call *)
+    intros SM. unfold begin_call in *. destruct SM as [S1 S2]. cbn [ags sh] in *.
+    rewrite (len_put_same _ _ _ _ EA) in S1.
+    change (g_log (hist (HCall a cl (g_clock (sh s0))) (sh s0))) with (g_log (sh s0)) in S2.
+    destruct (IH (conj S1 S2)) as (SG & SA & CO & DI).
+    destruct (entry_plain c _ _ _ He) as (P1' & P2' & _).
+    split; [|split; [|split]].
+    + destruct SG as [G1 G2]. constructor; [exact G1|exact G2].
+    + intros b B EB. rewrite get_put in EB. destruct (N.eqb b a) eqn:E.
+      * injection EB as <-. apply slota_plain; destruct A; cbn; assumption.
+      * apply (SA b B EB).
+    + intros i T NOP7. apply (CO i T). intros b B EB P7B.
+      destruct (N.eq_dec b a) as [-> | NE].
+      * rewrite EA in EB. injection EB as <-. rewrite Hpc in P7B. discriminate P7B.
+      * apply (NOP7 b B); [|exact P7B]. cbn [ags]. rewrite get_put.
+        assert (E : N.eqb b a = false) by (apply N.eqb_neq; exact NE). rewrite E. exact EB.
+    + intros b1 b2 B1 B2 NE E1 E2 PW1 PW2. cbn [ags] in E1, E2. rewrite get_put in E1, E2.
+      destruct (N.eqb b1 a) eqn:EQ1.
+      * injection E1 as <-. exfalso. destruct A; cbn in PW1. rewrite (wip_sphase _ PW1) in P1'. discriminate P1'.
+      * destruct (N.eqb b2 a) eqn:EQ2.
+        -- injection E2 as <-. exfalso. destruct A; cbn in PW2. rewrite (wip_sphase _ PW2) in P1'. discriminate P1'.
+        -- apply (DI b1 b2 B1 B2 NE E1 E2 PW1 PW2).
+  - (* micro-step *)
+    intros SM'. change (sh (apply1 s0 x o)) with (o_s o).
+    split; [eapply st_global; eauto|].
+    split; [|split; [eapply st_cellsok; eauto|eapply st_distinct; eauto]].
+    intros b B EB.
+    destruct (apply1_get _ _ _ _ _ EB) as (B0 & HB & Hsrc).
+    assert (W0 : SlotA B0 (o_s o)); [|destruct HB as [-> | ->]; [exact W0|apply slota_notified; exact W0]].
+    destruct Hsrc as [(a' & Hn & ->) | [(-> & ->) | (Hne & EB0)]].
+    + destruct (micro_new_idle _ _ _ _ _ _ _ M Hn) as (EI & _). apply slota_plain; rewrite EI; reflexivity.
+    + eapply st_self; eauto.
+    + eapply st_other; eauto.
+  - (* spurious compare-exchange failure *)
+    intros SM'.
+    pose proof (mreachN_mreach c fut s0 RN) as R.
+    destruct (spur_shape _ _ _ _ M) as (N0 & _ & _ & _ & _ & _ & SHP & _ & EH & EL).
+    destruct (spur_win c _ _ _ M) as (WE & ENS & SHP2).
+    destruct (spur_slot _ _ _ _ M) as (ECELL & _ & _ & ESID & _).
+    assert (SM : SmallW s0).
+    { destruct SM' as [S1 S2]. split; [pose proof (apply1_len s0 a o); lia|].
+      change (sh (apply1 s0 a o)) with (o_s o) in S2. rewrite EL in S2. exact S2. }
+    destruct (IH SM) as (SG & SA & CO & DI).
+    destruct WE as (E1 & E2 & E3 & E4 & E5 & E6 & E7).
+    assert (EP : forall g, gpos (o_s o) g = gpos (sh s0) g) by (intros; unfold gpos; now rewrite E3).
+    assert (ET : forall i, gtag (o_s o) i = gtag (sh s0) i) by (intros; unfold gtag; now rewrite E7).
+    assert (ELG : forall p, logat (o_s o) p = logat (sh s0) p) by (intros; apply logat_eq; exact EL).
+    assert (TR : forall B, SlotA B (sh s0) -> SlotA B (o_s o)).
+    { intros B (W1 & W2' & W3 & W4 & W5). split; [|split; [|split; [|split]]].
+      - intros PW. destruct (W1 PW) as (A1 & A2' & A3 & A4 & A5 & A6 & A7). cbv zeta.
+        rewrite E1, E2, ELG, ET, ECELL. repeat split; auto. intros g. rewrite EP. apply A5.
+      - intros MT. rewrite ET. apply W2'. exact MT.
+      - intros AT. rewrite EP. apply W3. exact AT.
+      - intros RD. destruct (W4 RD) as (BC & FV). split; [exact BC|]. rewrite EP, ELG. exact FV.
+      - apply (wita_mono B (sh s0) (o_s o)); [intros g; rewrite EP; lia|exact W5]. }
+    change (sh (apply1 s0 a o)) with (o_s o).
+    assert (NWIP : wip (a_pc (o_a o)) = false /\ wip (a_pc A) = false).
+    { destruct SHP as [(P1' & P2') | (P1' & P2')]; rewrite P1', P2'; split; reflexivity. }
+    destruct NWIP as (NW1 & NW2).
+    split; [|split; [|split]].
+    + destruct SG as [G1 G2]. constructor.
+      * intros g. rewrite EP, E1. apply G1.
+      * intros i T. rewrite ET in T |- *. apply G2. exact T.
+    + intros b B EB.
+      destruct (apply1_get _ _ _ _ _ EB) as (B0 & HB & Hsrc).
+      assert (W0 : SlotA B0 (o_s o)); [|destruct HB as [-> | ->]; [exact W0|apply slota_notified; exact W0]].
+      destruct Hsrc as [(a' & Hn & ->) | [(-> & ->) | (Hne & EB0)]].
+      * rewrite N0 in Hn. discriminate Hn.
+      * destruct SHP2 as [(PC & PC' & EHH) | (PC & PC' & EPOS)].
+        -- apply slota_m2.  exact PC'.
+        -- split; [intros X0; rewrite PC' in X0; discriminate X0|].
+           split; [intros X0; rewrite PC' in X0; discriminate X0|].
+           split; [intros _; rewrite EPOS, ESID, EP; lia|].
+           split; [intros X0; rewrite PC' in X0; discriminate X0|].
+           apply wita_nonphase. rewrite PC'. reflexivity.
+      * apply TR. apply (SA b B0 EB0).
+    + intros i T NOP7. change (sh (apply1 s0 a o)) with (o_s o) in *. rewrite ET in T. rewrite ET, ELG, ECELL. apply (CO i T).
+      intros b B EB P7B. destruct (N.eq_dec b a) as [-> | NE].
+      * rewrite EA in EB. injection EB as <-. rewrite P7B in NW2. discriminate NW2.
+      * assert (NOK : new_ok s0 a o = true) by (unfold new_ok; rewrite N0; reflexivity).
+        destruct (apply1_get_conv s0 a o b B EB NE NOK) as (B' & EB' & [-> | ->]).
+        -- apply (NOP7 b B EB' P7B).
+        -- assert (F : a_pc (set_a_notified true B) = P7 /\ r_h (a_r (set_a_notified true B)) = r_h (a_r B))
+             by (destruct B; split; [exact P7B|reflexivity]).
+           destruct F as (F1 & F2). rewrite <- F2. apply (NOP7 b _ EB' F1).
+    + intros b1 b2 B1 B2 NE EB1 EB2 PW1 PW2.
+      destruct (apply1_get _ _ _ _ _ EB1) as (A0' & HA & SRCA).
+      destruct (apply1_get _ _ _ _ _ EB2) as (B0' & HB & SRCB).
+      assert (FA : a_pc B1 = a_pc A0' /\ r_h (a_r B1) = r_h (a_r A0')) by (destruct HA as [-> | ->]; destruct A0'; split; reflexivity).
+      assert (FB : a_pc B2 = a_pc B0' /\ r_h (a_r B2) = r_h (a_r B0')) by (destruct HB as [-> | ->]; destruct B0'; split; reflexivity).
+      destruct FA as (FA1 & FA2). destruct FB as (FB1 & FB2). rewrite FA1 in PW1. rewrite FB1 in PW2. rewrite FA2, FB2.
+      destruct SRCA as [(a' & Hn & ->) | [(-> & ->) | (NA & EA0)]]; [rewrite N0 in Hn; discriminate Hn|rewrite NW1 in PW1; discriminate PW1|].
+      destruct SRCB as [(b' & Hn & ->) | [(-> & ->) | (NB & EB0)]]; [rewrite N0 in Hn; discriminate Hn|rewrite NW1 in PW2; discriminate PW2|].
+      apply (DI b1 b2 A0' B0' NE EA0 EB0 PW1 PW2).
+  - (* clock tick *)
+    intros SM. cbn [ags sh] in *. destruct SM as [S1 S2].
+    change (g_log (tick (sh s0))) with (g_log (sh s0)) in S2.
+    destruct (IH (conj S1 S2)) as (SG & SA & CO & DI).
+    split; [|split; [|split]].
+    + destruct SG as [G1 G2]. constructor; [exact G1|exact G2].
+    + intros b B EB. apply (SA b B EB).
+    + intros i T NOP7. apply (CO i T NOP7).
+    + exact DI.
 Qed.
 End SL.
